@@ -2,6 +2,7 @@ package main
 
 import (
 	"fmt"
+	"strconv"
 	"go/token"
 	"go/types"
 	"strings"
@@ -78,11 +79,19 @@ func (x *Exec) bodyEnv(fr *Frame, n *Node, st *State, at *ssa.BasicBlock) *Env {
 			if !isCur {
 				state = entry
 			}
-			if name == "$visited" || name == "iter" {
-				// the loop's own iteration state
+			if name == "$visited" || name == "iter" || (strings.HasPrefix(name, "iter") && isDigits(name[4:])) {
+				// the loop's own iteration state (iter), or that of the loop with ordinal N (iterN)
 				h := at
 				if _, ok := fr.loops.ordinal[h]; !ok {
 					h = fr.loops.innermost(at)
+				}
+				if len(name) > 4 && name != "$visited" {
+					n, _ := strconv.Atoi(name[4:])
+					h = nil
+					if n >= 1 && n <= len(fr.loops.headers) {
+						h = fr.loops.headers[n-1]
+					}
+					name = "iter"
 				}
 				if h == nil {
 					return Term{}, false, fmt.Errorf("%s used outside a loop", name)
@@ -431,34 +440,55 @@ func unionProps(a, b []string) []string {
 
 // atCallAsserts: "at call NAME[#k] assert P" clauses of the top-level contract.
 func (x *Exec) atCallAsserts(c *callCtx, callee *ssa.Function) bool {
-	fr := c.fr
+	return x.atAsserts(c.fr, c.n, c.st, "call", []string{callee.Name(), funcKey(callee)}, c.instr)
+}
+
+// atAsserts places the contract's "at <where> <target>[#k] assert P" clauses before the instruction.
+func (x *Exec) atAsserts(fr *Frame, n *Node, st *State, where string, targets []string, instr ssa.Instruction) bool {
 	if fr.depth != 0 || fr.contract == nil {
 		return false
 	}
-	short := callee.Name()
-	key := funcKey(callee)
 	any := false
 	for ai, aa := range fr.contract.Asserts {
-		if aa.Where != "call" {
+		if aa.Where != where {
 			continue
 		}
-		if aa.Target != short && aa.Target != key && !strings.HasSuffix(key, "."+aa.Target) {
+		match := false
+		for _, t := range targets {
+			if aa.Target == t || strings.HasSuffix(t, "."+aa.Target) {
+				match = true
+			}
+		}
+		if !match {
 			continue
 		}
-		cnt := fr.callCount["at:"+aa.Target+fmt.Sprint(aa.Clause.Line)] + 1
-		fr.callCount["at:"+aa.Target+fmt.Sprint(aa.Clause.Line)] = cnt
+		ck := fmt.Sprintf("at:%d", ai)
+		cnt := fr.callCount[ck] + 1
+		fr.callCount[ck] = cnt
 		if aa.Nth != 0 && aa.Nth != cnt {
 			continue
 		}
-		env := x.bodyEnv(fr, c.n, c.st, c.instr.Block())
+		env := x.bodyEnv(fr, n, st, instr.Block())
 		f, err := x.trBool(aa.Clause.Expr, env)
 		if err != nil {
 			x.contractError(fr, aa.Clause, err)
 			continue
 		}
-		ob := &Obligation{Name: fmt.Sprintf("%s#assert%d:call-%s@%d", fr.contract.Key(), ai+1, aa.Target, cnt), Kind: "assert", Fn: fr.contract.Key(), Props: clauseProps(fr.contract, aa.Clause), Clause: aa.Clause.Src, Pos: x.prog.pos(c.instr.Pos())}
-		x.vc.assert(c.n, f, ob)
+		ob := &Obligation{Name: fmt.Sprintf("%s#assert%d:%s-%s@%d", fr.contract.Key(), ai+1, where, aa.Target, cnt), Kind: "assert", Fn: fr.contract.Key(), Props: clauseProps(fr.contract, aa.Clause), Clause: aa.Clause.Src, Pos: x.prog.pos(instr.Pos())}
+		x.vc.assert(n, f, ob)
 		any = true
 	}
 	return any
+}
+
+func isDigits(s string) bool {
+	if s == "" {
+		return false
+	}
+	for _, r := range s {
+		if r < '0' || r > '9' {
+			return false
+		}
+	}
+	return true
 }
